@@ -189,6 +189,19 @@ claim('C13',
       'exhaustive enumeration of stock files and of a generated case family x formats against independent writers/readers',
       'DESIGN.md#c13')
 
+claim('C04',
+      'The real integrator is run on a classical-machine system and on kundur_full (GENROU, exciters, governors with '
+      'anti-windup) for every configuration of method x fixt x g_scale x honest x tstep (deviation-bounded in quick, full '
+      'product in thorough) x disturbance schedules {none, line trip, trip + reclose, fault}; the decision point is each call of '
+      'the step routine and every subset of <=1 (<=2) forced rejections (real Newton loop with an unsatisfiable tolerance) '
+      'among the first 12 calls is executed. Every accepted step is checked row by row against the implicit rule with f, g '
+      're-evaluated at the accepted point and a bound built from the iteration matrix and last increment the run itself used; '
+      'every rejected step must leave x, y, f bit-identical; step size, end time and monotone time are checked at every call.',
+      'Bound 2|Ac|(|inc| + tol 1e-6) (convergence is declared on the increment); f0 is the value the integrator used; steps at '
+      'which the re-evaluation pegs a limiter are not judged; order of convergence is decided under C07.',
+      'deviation-bounded exploration of forced step rejections on the real integrator with a per-step residual oracle',
+      'DESIGN.md#c04')
+
 _PENDING = 'check not built yet in this round; planned per DESIGN.md (bounded exhaustive exploration applies)'
 for _p in ALL:
     if _p not in CLAIMED:
